@@ -651,6 +651,65 @@ def _axes_in(e, env, axis_of, depth=0):
     return out
 
 
+def _library_scan(node, cursor_of, disp):
+    """('span', cursor, argcursor, argoffset, bytes) for `c += strcspn(c, "lit")` / `c += strlen(c)`;
+    ('find', target, argcursor, argoffset, bytes) for `t = strstr(c, "lit")` / `t = strchr(c, ch)`; else None"""
+    from ..dataflow import node_effects
+    for ev in node_effects(node):
+        if ev.kind == 'store':
+            lhs, op, rhs = ev.lhs, ev.node['op'], ev.node['r']
+            tgt = cursor_of(lhs)
+        elif ev.kind == 'declinit' and ev.rhs is not None:
+            lhs, op, rhs = None, '=', ev.rhs
+            tgt = ev.lhs['n']
+        else:
+            continue
+        r = strip_casts(rhs)
+        if r.get('k') != 'call' or tgt is None:
+            continue
+        cn = callee_name(r)
+        if not r['args']:
+            continue
+        a0 = strip_casts(r['args'][0])
+        k = 0
+        if a0.get('k') == 'bin' and a0['op'] == '+' and const_val(a0['r']) is not None:
+            k = const_val(a0['r'])
+            a0 = strip_casts(a0['l'])
+        argc = cursor_of(a0)
+        if argc is None or argc not in disp:
+            continue
+        if op == '+=' and cn in ('strcspn', 'strlen') and argc == tgt and k == 0:
+            lit = []
+            if cn == 'strcspn':
+                l1 = strip_casts(r['args'][1])
+                if l1.get('k') != 'str':
+                    return None
+                lit = list(l1['bytes'])
+            return ('span', tgt, argc, k, lit)
+        if op == '=' and cn in ('strstr', 'strchr') and len(r['args']) > 1:
+            l1 = strip_casts(r['args'][1])
+            if cn == 'strstr' and l1.get('k') == 'str' and l1['bytes']:
+                return ('find', tgt, argc, k, list(l1['bytes']))
+            c = const_val(r['args'][1])
+            if cn == 'strchr' and c:
+                return ('find', tgt, argc, k, [c])
+    return None
+
+
+def _null_test(e, cursor_of):
+    """(cursor, True when the expression is true for a NULL cursor)"""
+    e = strip_casts(e)
+    if e.get('k') == 'bin' and e['op'] in ('==', '!=') and (is_null_const(e['l']) or is_null_const(e['r'])):
+        other = e['l'] if is_null_const(e['r']) else e['r']
+        c = cursor_of(other)
+        if c is not None:
+            return (c, e['op'] == '==')
+    c = cursor_of(e) if e.get('k') == 'ref' else None
+    if c is not None:
+        return (c, False)
+    return None
+
+
 def tab19(units, R):
     """A comment skipper first steps over its opener, then leaves its scanning loop only at the terminator or when the
     bytes *at* the cursor spell its closer, having stepped over exactly the closer.  Decided by following every path of
@@ -668,10 +727,11 @@ def tab19(units, R):
             raise AnalysisBroken('TAB19: %s does not take one char** cursor' % name)
         ppd = pp[0]['d']
         heads = [n for n in cfg.nodes if n.kind == 'nop' and n.name == 'loop-head']
-        if len(heads) != 1:
-            raise AnalysisBroken('TAB19: %s should have exactly one scanning loop' % name)
-        head = heads[0]
-        loop = cfg.reachable(head.id) & cfg.reachable(head.id, forward=False)
+        if len(heads) > 1:
+            raise AnalysisBroken('TAB19: %s has more than one scanning loop' % name)
+        # no loop at all: the scan is delegated to the C library (strstr, strcspn, strchr, strlen), whose contracts play the
+        # role of the loop: the cursor is re-based where the search ends, with what is known about the bytes there
+        head = heads[0] if heads else None
         ALL = frozenset(range(256))
 
         def cursor_of(e):
@@ -689,17 +749,18 @@ def tab19(units, R):
         # entry before the loop, cursor at the loop head inside the loop
         results = {'opener': set(), 'exits': []}
         seen = set()
-        work = [(cfg.entry.id, (('*pp', 0),), (), False)]
+        work = [(cfg.entry.id, (('*pp', 0),), (), False, ())]
         steps = 0
         while work:
-            nid, dispt, Bt, inloop = work.pop()
+            nid, dispt, Bt, inloop, nullt = work.pop()
+            nulls = dict(nullt)
             steps += 1
             if steps > 20000:
                 raise AnalysisBroken('TAB19: exploration of %s does not finish' % name)
             node = cfg.nodes[nid]
             disp = dict(dispt)
             B = dict(Bt)
-            if nid == head.id:
+            if head is not None and nid == head.id:
                 if not inloop:
                     results['opener'].add(tuple(sorted(disp.items(), key=repr)))
                 # new iteration: the origin moves to the cursor, nothing is known about the bytes ahead
@@ -713,7 +774,7 @@ def tab19(units, R):
                 if inloop:
                     results['exits'].append((dict(disp), dict(B), node))
                 continue
-            sig = (nid, tuple(sorted(disp.items(), key=repr)), tuple(sorted((a, v) for a, v in B.items())), inloop)
+            sig = (nid, tuple(sorted(disp.items(), key=repr)), tuple(sorted((a, v) for a, v in B.items())), inloop, tuple(sorted(nulls.items())))
             if sig in seen:
                 continue
             seen.add(sig)
@@ -760,8 +821,39 @@ def tab19(units, R):
                         src = cursor_of(r)
                         if src in disp2 and disp2[src] is not None:
                             disp2[d['n']] = disp2[src] + k
-            for (y, label) in cfg.succ[nid]:
+            variants = [(disp2, B, inloop, nulls)]
+            lib = _library_scan(node, cursor_of, disp)
+            if lib is not None:
+                kind, target, argc, argk, lit = lib
+                start = (disp.get(argc) + argk) if disp.get(argc) is not None else None
+                if not inloop:
+                    results['opener'].add((('*pp', start),))
+                if kind == 'span':
+                    # cursor += strcspn(cursor, lit) / strlen(cursor): lands on the terminator or on the first byte of lit
+                    nd_ = {c: None for c in disp}
+                    nd_[target] = 0
+                    variants = [(nd_, {0: frozenset([0]) | frozenset(lit)}, True, nulls)]
+                else:
+                    # target = strstr(cursor, lit) / strchr(cursor, c): either NULL, or a position where lit stands
+                    found = {c: None for c in disp}
+                    found[target] = 0
+                    nf = dict(disp2)
+                    nf[target] = None
+                    n1 = dict(nulls)
+                    n1[target] = False
+                    n2 = dict(nulls)
+                    n2[target] = True
+                    variants = [(found, {i: frozenset([ch]) for i, ch in enumerate(lit)}, True, n1),
+                                (nf, dict(B), inloop, n2)]
+            for (disp2, B, inloop2, nulls2) in variants:
+              for (y, label) in cfg.succ[nid]:
                 B2 = dict(B)
+                if label is not None and label[0] in ('T', 'F') and node.kind == 'branch':
+                    nt = _null_test(label[1], cursor_of)
+                    if nt is not None and nt[0] in nulls2:
+                        isnull = nulls2[nt[0]]
+                        if (isnull == nt[1]) != (label[0] == 'T'):
+                            continue
                 if label is not None and label[0] in ('T', 'F') and node.kind == 'branch':
                     axes = set()
                     for x in walk(label[1]):
@@ -785,7 +877,7 @@ def tab19(units, R):
                         B2[a] = frozenset(keep)
                     elif len(axes) > 1:
                         raise AnalysisBroken('TAB19: %s: condition mixes several bytes' % fn.where(label[1]))
-                work.append((y, tuple(sorted(disp2.items(), key=repr)), tuple(sorted(B2.items())), inloop))
+                work.append((y, tuple(sorted(disp2.items(), key=repr)), tuple(sorted(B2.items())), inloop2, tuple(sorted(nulls2.items()))))
         # opener
         n_ob += 1
         op_disps = {max([v for v in dict(t).values() if v is not None] or [0]) for t in results['opener']}
